@@ -20,9 +20,9 @@ from harness.common import rat, wl, lean_list, lean_str, corpus_cases
 
 PID = 'C13'
 MODULES = ['NoteSeqVerif.Props.C13', 'NoteSeqVerif.Props.C13_repeat', 'NoteSeqVerif.Props.C13_interp',
-           'NoteSeqVerif.Props.C13_adjust']
+           'NoteSeqVerif.Props.C13_adjust', 'NoteSeqVerif.Props.C13_durations']
 EXE = 'drv_c13'
-_P, _PR, _PI, _PA = MODULES
+_P, _PR, _PI, _PA, _PD = MODULES
 THEOREMS = [(_P, 'NSV.C13.' + t) for t in (
     'shift_spec shift_error_iff stretch_spec stretch_one stretch_error_iff '
     'remove_redundant_in_effect remove_redundant_drops_only_repeats remove_redundant_frame dedup_keeps_first '
@@ -45,7 +45,10 @@ THEOREMS = [(_P, 'NSV.C13.' + t) for t in (
     # every magnitude; raises iff a note is reversed or a kept time is negative), for every time map and rounding
     (_PA, 'NSV.C13.' + t) for t in (
     'adjust_keeps_exactly adjust_raises_iff adjust_raises_iff_reversed adjust_min_duration_keeps_all '
-    'rectify_keeps_exactly rectify_raises_iff').split()]
+    'rectify_keeps_exactly rectify_raises_iff').split()] + [
+    # Props/C13_durations.lean: an explicit duration is judged by value (0 is too short for a non-empty piece)
+    (_PD, 'NSV.C13.' + t) for t in (
+    'concat_short_duration_rejected concat_zero_duration_rejected concat_zero_duration_of_empty_piece').split()]
 
 EV = ['time_signatures', 'key_signatures', 'tempos', 'pitch_bends', 'control_changes',
       'text_annotations', 'section_annotations']
@@ -779,6 +782,124 @@ def o_expand(sl, case):
     return None
 
 
+# ----------------------------------------------------------------------------- histories (purity / aliasing)
+def _tm(sl, c, q):
+    return build_map(c['map'])
+
+
+HIST_CALLS = {
+    'shift': lambda sl, c, q: sl.shift_sequence_times(q[0], c['d']),
+    'stretch': lambda sl, c, q: sl.stretch_note_sequence(q[0], c['f']),
+    'rr': lambda sl, c, q: sl.remove_redundant_data(q[0]),
+    'concat': lambda sl, c, q: sl.concatenate_sequences(q, c.get('durs')),
+    'merge': lambda sl, c, q: sl.merge_sequences(q),
+    'adjust': lambda sl, c, q: sl.adjust_notesequence_times(q[0], build_map(c['map']), c.get('md')),
+    'rectify': lambda sl, c, q: sl.rectify_beats(q[0], c['bpm']),
+    'repcat': lambda sl, c, q: sl.repeat_sequence_to_duration(q[0], c['D'], c.get('sd')),
+    'expand': lambda sl, c, q: sl.expand_section_groups(q[0]),
+}
+
+
+def res_seqs(r):
+    T = type(NS())
+    if isinstance(r, T):
+        return [r]
+    if isinstance(r, (list, tuple)):
+        return [x for x in r if isinstance(x, T)]
+    return []
+
+
+def res_canon(r):
+    import numpy as np
+    T = type(NS())
+    if isinstance(r, T):
+        return ('ns', to_hex(r))
+    if isinstance(r, (list, tuple)):
+        return tuple(res_canon(x) for x in r)
+    if isinstance(r, np.ndarray):
+        return ('nd', r.shape, r.tobytes())
+    return ('py', repr(r))
+
+
+def scramble(ns, salt=1):
+    """the caller goes on working on a sequence it was handed back: in-place edits of every container"""
+    for n in ns.notes:
+        n.pitch = (n.pitch + 7) % 128
+        n.start_time = n.start_time * 2 + salt
+        n.end_time = n.end_time * 2 + salt + 0.5
+    if len(ns.notes) > 1:
+        del ns.notes[-1]
+    x = ns.notes.add()
+    x.pitch, x.velocity, x.start_time, x.end_time = 2, 3, 0.25, 4321.0
+    ns.notes.sort(key=lambda n: -n.start_time)
+    for k in EV:
+        rep = getattr(ns, k)
+        for e in rep:
+            e.time = e.time * 2 + salt
+        if len(rep) > 1:
+            del rep[0]
+    for t in ns.tempos:
+        t.qpm = t.qpm / 2 + 1
+    for t in ns.key_signatures:
+        t.key = (t.key + 5) % 12
+    ns.tempos.add(time=1.75, qpm=77.0)
+    ns.pitch_bends.add(time=0.5, bend=-5)
+    ns.section_annotations.add(time=3.0, section_id=31)
+    ns.section_groups.add(num_times=3).sections.add().section_id = 31
+    ns.sequence_metadata.composers.append('edited')
+    ns.sequence_metadata.genre.append('edited')
+    ns.subsequence_info.end_time_offset += 2.0
+    ns.total_time = ns.total_time * 2 + 99.0
+    ns.ticks_per_quarter += 3
+    ns.id += '~'
+
+
+def o_history(sl, case):
+    """every operation in a short history, whatever its arguments (legal, raising, outside the quantifier):
+         call 1            the arguments are byte-for-byte what they were (also when it raised);
+                           no returned NoteSequence is one of the argument objects
+         the caller edits  every returned sequence in place -> the arguments are still byte-for-byte what they were
+         call 2            same outcome as call 1 had when it returned (same exception type and text, or equal
+                           results), handing back none of the objects of call 1 or of the arguments"""
+    f = HIST_CALLS.get(case['op'])
+    if f is None:
+        return None
+    seqs = [from_hex(h) for h in case['seqs']]
+    before = [to_hex(s) for s in seqs]
+
+    def changed():
+        return [i for i, (a, s) in enumerate(zip(before, seqs)) if to_hex(s) != a]
+    r1, e1 = call(f, sl, case, seqs)
+    if changed():
+        return 'history: argument %s modified by the call (%s)' % (changed(), 'it returned' if e1 is None else 'it raised ' + type(e1).__name__)
+    c1 = res_canon(r1) if e1 is None else None
+    out1 = res_seqs(r1) if e1 is None else []
+    shared = [(i, j) for i, o in enumerate(out1) for j, q in enumerate(seqs) if o is q]
+    if shared:
+        return 'history: the returned sequence %d IS the argument object %d (no new sequence was made)' % shared[0]
+    for i, o in enumerate(out1):
+        scramble(o, i + 1)
+    if changed():
+        return ('history: argument %s changed when the caller edited the returned sequence in place '
+                '(the result shares memory with the argument)' % changed())
+    r2, e2 = call(f, sl, case, seqs)
+    if changed():
+        return 'history: argument %s modified by the second call' % changed()
+    if (e1 is None) != (e2 is None):
+        return 'history: the second call %s, the first %s' % ('raised ' + type(e2).__name__ if e2 is not None else 'returned',
+                                                              'raised ' + type(e1).__name__ if e1 is not None else 'returned')
+    if e1 is not None:
+        if (type(e1).__name__, str(e1)) != (type(e2).__name__, str(e2)):
+            return 'history: the second call raised %s(%s), the first %s(%s)' % (type(e2).__name__, e2, type(e1).__name__, e1)
+        return None
+    if res_canon(r2) != c1:
+        return 'history: the second call returns a different result (after the caller edited the first result in place)'
+    out2 = res_seqs(r2)
+    if any(a is b for a in out2 for b in out1) or any(a is q for a in out2 for q in seqs):
+        return 'history: the second call hands back an object of the first result / an argument'
+    return None
+
+
 def o_interp(sl, case):
     return None    # numpy's function, no statement of the property about it (correspondence only)
 
@@ -952,7 +1073,8 @@ def case_shift(rng):
 def case_stretch(rng):
     ns = gen_piece(rng)
     k = rng.random()
-    f = pos_double(rng) if k < 0.92 else rng.choice([0.0, -1.0, -2.5])
+    f = pos_double(rng) if k < 0.86 else rng.choice([1.0, 1, nswire.nextafter_n(1.0, 1), nswire.nextafter_n(1.0, -1)]) if k < 0.92 \
+        else rng.choice([0.0, -1.0, -2.5])
     return {'op': 'stretch', 'seqs': [to_hex(ns)], 'f': f}, ['stretch:' + ('one' if f == 1.0 else 'positive' if f > 0 else 'non-positive')]
 
 
@@ -996,6 +1118,22 @@ def case_concat(rng, merge=False):
                         else nswire.nextafter_n(s.total_time, -1) if j < 0.97 and s.total_time > 0 else s.total_time / 2)
         if rng.random() < 0.06 and durs:
             durs = durs[:-1] if rng.random() < 0.5 else durs + [1.0]
+        if rng.random() < 0.07 and durs:
+            # the first value of the range: duration 0 / 0.0 (falsy numbers) - legal exactly for a piece of total_time 0
+            z = rng.choice([0, 0.0])
+            if rng.random() < 0.3:
+                durs = [z for _ in durs]
+            else:
+                durs[rng.randrange(len(durs))] = z
+            if rng.random() < 0.4 and seqs:
+                i = rng.randrange(len(seqs))
+                seqs[i] = NS() if rng.random() < 0.5 else nswire.NSGen(rng, max_notes=0).make(notes=False, sub=True)
+                seqs[i].total_time = 0.0
+                if i < len(durs):
+                    durs[i] = z
+                case['seqs'] = [to_hex(q) for q in seqs]
+            hist.append('durations:zero-for-%s-piece' % ('a-non-empty' if any(
+                d == 0 and q.total_time > 0 for d, q in zip(durs, seqs)) else 'an-empty'))
         case['durs'] = durs
         hist.append('durations:explicit')
         if len(durs) != len(seqs):
@@ -1301,7 +1439,7 @@ def run(chk):
                 break
             chk.count('oracle', None)
             try:
-                r = ORACLES[c['op']](sl, c)
+                r = ORACLES[c['op']](sl, c) or o_history(sl, c)
             except Exception as e:  # pylint: disable=broad-except
                 import traceback
                 raise RuntimeError('oracle crashed on %s: %s' % (c['op'], traceback.format_exc())) from e
@@ -1327,7 +1465,7 @@ def replay(chk, obj):
     from absl import logging as alog
     alog.set_verbosity(alog.ERROR)
     print('replay C13: op=%s %s' % (obj['op'], {k: v for k, v in obj.items() if k not in ('seqs', 'op')}))
-    r = ORACLES[obj['op']](sl, obj)
+    r = ORACLES[obj['op']](sl, obj) or o_history(sl, obj)
     print('PROPERTY FAILS: %s' % r if r else 'property holds on this input')
     return 1 if r else 0
 
